@@ -32,6 +32,7 @@ func init() {
 		Trusted:     []string{"watermill publisher"},
 	}, func(c *Ctx) {
 		ruleR16ac(c)
+		ruleR06ab(c)
 		ruleR14a(c, "R16b", func(kind string) bool { return strings.HasPrefix(kind, "monitor.") })
 		ruleR16d(c)
 		ruleR16f(c)
